@@ -131,12 +131,25 @@ func (e *C08Script) Run(ctx *core.Ctx, idx int) {
 				fail("C08.state-reflects-pause", "state is "+string(state()))
 			}
 		}
-		// release
+		// release: through the command (sets the annotation to "false"), by setting it to "false" by
+		// hand, or by removing it ("resumes once its annotation is removed or set to false")
+		how := []string{"command", "set-false", "removed"}[r.Intn(3)]
+		attrs["release"] = how
+		release := func(cmd, key string) {
+			switch how {
+			case "command":
+				_ = w.Kubectl(cmd, "ns1", "foo")
+			case "set-false":
+				w.Annotate("ns1", "foo", key, "false")
+			default:
+				w.Annotate("ns1", "foo", key, "")
+			}
+		}
 		if scen != "frozen" {
-			_ = w.Kubectl("unpause-rolling-update", "ns1", "foo")
+			release("unpause-rolling-update", v1.ExtendedDaemonSetRollingUpdatePausedAnnotationKey)
 		}
 		if scen != "paused" {
-			_ = w.Kubectl("unfreeze-rollout", "ns1", "foo")
+			release("unfreeze-rollout", v1.ExtendedDaemonSetRolloutFrozenAnnotationKey)
 		}
 		ok := false
 		for i := 0; i < bound; i++ {
